@@ -58,6 +58,7 @@ func main() {
 	}
 	defer tw.Close()
 	st := drv.NewStats()
+	st.Samples = []string{}
 	defer func() { st.Write(c.Stats) }()
 
 	if c.Replay != "" {
@@ -85,6 +86,8 @@ func main() {
 			cr := newCase(fmt.Sprintf("o%d_%d", c.Seed, k), "orphan", *dir, tw, st)
 			orphanCase(cr, 1+k%3)
 			cr.finish()
+			st.Inc("case:orphan")
+			st.Sample(fmt.Sprintf("orphan scenario %d: the process ends while a background child of it lives on in its group", 1+k%3))
 		}
 		return
 	}
